@@ -372,5 +372,19 @@ def r14_7(ctx):
                 "again with an unchanged value: the client keeps null for a visible option", f.loc(nulls[0]))
 
 
+def r14_8(ctx):
+    """R14.8 what `save` writes is what a fresh server reads back as the reported state: (a) the save is skipped only when
+    the file is identical as a whole (C13 R13.1b: a prefix comparison answers `saved` and leaves the old file); (b) string
+    values are written through the full escape chain the loader undoes (C02 R02.2 / R02.9a); (c) the side results that
+    decide what is written (`_has_active_indirect_set`) are recomputed by every evaluation (C03 R03.7) - a flag left over
+    from an earlier request makes the live server report and save a value a fresh server does not compute."""
+    from . import c02, c13
+    from .common import delegate
+    delegate(ctx, c13.r13_1b, lambda c: True)
+    delegate(ctx, c02.r02_2, lambda c: "_escape" in c or "unescape" in c or "config_string" in c)
+    delegate(ctx, c02.r02_9, lambda c: c.startswith("_escape/"))
+    delegate(ctx, c03.r03_7, lambda c: True)
+
+
 def rules():
-    return [("R14.1", r14_1, 9), ("R14.2", r14_2, 5), ("R14.3", r14_3, 3), ("R14.4", r14_4, 20), ("R14.5", r14_5, 10), ("R14.6", r14_6, 5), ("R14.7", r14_7, 1)]
+    return [("R14.1", r14_1, 9), ("R14.2", r14_2, 5), ("R14.3", r14_3, 3), ("R14.4", r14_4, 20), ("R14.5", r14_5, 10), ("R14.6", r14_6, 5), ("R14.7", r14_7, 1), ("R14.8", r14_8, 6)]
